@@ -59,11 +59,11 @@ class Gen:
 
     def valid(self, rng, kind):
         m = self._retarget(rng, rng.choice(self.single))
-        return V.wire_rx(kind, m, self.enc, self._ts(rng))
+        return V.wire_rx(kind, m, self.enc, self._ts(rng), direction=rng.choice("RRT"))
 
     def fastrun(self, rng, kind):
         m = self._retarget(rng, rng.choice(self.fast))
-        ps = V.wire_rx(kind, m, self.enc, self._ts(rng))
+        ps = V.wire_rx(kind, m, self.enc, self._ts(rng), direction=rng.choice("RRT"))
         r = rng.random()
         if len(ps) > 1 and r < 0.15:
             del ps[rng.randrange(len(ps))]          # lost frame
@@ -265,7 +265,8 @@ def make_spec(rng, gen, kind, how=None, npk=None, ascii_only=True, special=None)
     if how == "one" and len(chunks) > 400:
         spec["gaps"] = [rng.choice([0, 0, 0, 1]) for _ in chunks]
     spec["cb"] = {"raise_every": rng.choice([0, 0, 1, 2, 3]), "sleep_every": rng.choice([0, 0, 2, 4]),
-                  "yield_every": rng.choice([0, 0, 3]), "sleep_s": rng.choice([0.01, 0.25, 3.0])}
+                  "yield_every": rng.choice([0, 0, 3]), "sleep_s": rng.choice([0.01, 0.25, 3.0]),
+                  "send_every": rng.choice([0, 0, 0, 2, 3])}
     if rng.random() < 0.1:
         spec["opts"] = {"exclude_pgns": [127250, 129029]}
     spec["special"] = special
